@@ -54,7 +54,7 @@ def point_density(p, f, d):
         E[rng.uniform(size=(nf, nd)) < p.get("zero_fraction", 0.3)] = 0.0
         return E
     E = jonswap_1d(f, p["hs"], p["fp"], p.get("gamma", 3.3))[:, None] * spreading(d, p["theta"], p["power"])[None, :]
-    if k == "swell_sea":
+    if k in ("swell_sea", "cross_chop"):
         E = E + jonswap_1d(f, p["hs2"], p["fp2"], 5.0)[:, None] * spreading(d, p["theta2"], 20)[None, :]
     if p.get("positive_floor"):
         E = E + 1e-9 * (E.max() if E.max() > 0 else 1.0)
@@ -78,6 +78,11 @@ def point(draw, kinds=("jonswap", "jonswap", "pm", "swell_sea", "random", "empty
               "theta": draw(fl(0.0, 360.0)), "power": draw(st.sampled_from([1, 2, 5, 10, 25]))})
     if k == "swell_sea":
         p.update({"hs2": draw(fl(0.3, 3.0)), "fp2": draw(fl(0.05, 0.09)), "theta2": draw(fl(0.0, 360.0))})
+    if k == "cross_chop":
+        # a short oblique high-frequency component: the wave-supported stress then points away from the
+        # dissipation-weighted wave direction (first guess of the wind direction)
+        off = draw(fl(30.0, 120.0)) * draw(st.sampled_from([-1.0, 1.0]))
+        p.update({"hs2": p["hs"] * draw(fl(0.05, 0.3)), "fp2": fp * draw(fl(1.8, 3.0)), "theta2": (p["theta"] + off) % 360.0})
     if k == "random":
         p["seed"] = draw(st.integers(0, 2 ** 32 - 1))
         p["zero_fraction"] = draw(st.sampled_from([0.0, 0.3, 0.8]))
